@@ -164,6 +164,7 @@ pub struct SessionRun {
 
 /// Run `forms` on a model and an implementation (both supplied, so that histories can be shared).
 pub fn run_session_on(m: &mut Machine, im: &mut Impl, forms: &[Cell]) -> SessionRun {
+    let steps_before = m.total_steps;
     let mut impl_outs = vec![];
     let mut model_outs = vec![];
     let mut verdict = Verdict::Agree;
@@ -209,7 +210,7 @@ pub fn run_session_on(m: &mut Machine, im: &mut Impl, forms: &[Cell]) -> Session
         }
         compared += 1;
     }
-    SessionRun { verdict, impl_outs, model_outs, forms_compared: compared, model_steps: m.steps, model_k_depth: m.max_k_depth }
+    SessionRun { verdict, impl_outs, model_outs, forms_compared: compared, model_steps: m.total_steps - steps_before, model_k_depth: m.max_k_depth }
 }
 
 /// A model that knows which global names exist only in the implementation.
